@@ -57,3 +57,12 @@ claim("C13",
       "decision table of the teardown routine for the will, control-dependence of the Disconnected flag on the dispatcher's sentinel and who-returns analysis, loop matcher + provenance in the peer-failure handler, field-by-field capture, merge table for session records (go/ssa)",
       "Decides on every teardown path that no will is published after DISCONNECT and exactly one (this session's, through the normal publish path) otherwise when the record is absent or ours; that the flag is set only under the session-ended sentinel, which only the DISCONNECT and PINGREQ arms return; that survivors append each lost session's will once, qualified with that session's mount point; that the will is captured from the CONNECT fields and stored in the record. Necessary conditions.",
       "Not decided: 'each matching subscriber exactly once' across nodes, retained wills, run-time membership.")
+
+claim("C14",
+      "per-iteration path table of the destination loop with provenance of destinations, message and target peer; loop-exit analysis; error discipline with two iterations; control dependence in the writer (go/ssa)",
+      "Decides on every path of one destination-loop iteration that the destination set is the distinct peers of the subscriptions matching the publish's own topic, that each destination gets exactly one local append or one remote ScheduleMessage(publish) to that very peer, that no destination failure ends the loop or is masked by a later success, that the remote side appends what it received and returns that error, and that the writer keeps only recipients hosted by its own peer. Necessary conditions.",
+      "Not decided: matching semantics (C01), gRPC delivery, publisher-side retries.")
+claim("C18",
+      "frame analysis over the static call graph (callers, closures, go statements) for deferred non-fatal recover(), reachability of terminating calls from the connection roots with a positive control, control dependence across nested closures, provenance of decoder instances (go/ssa)",
+      "Decides containment: every chain from a goroutine root to the MQTT decoder or the dispatcher passes a recovering frame set up before the call; nothing reachable from client-input handling terminates the process; a decode/dispatch error stops only that session's loop; in-flight callbacks touch the received packet only when not expired; decoders are never shared between goroutines. Necessary conditions of 'no client input can crash the broker'.",
+      "Not decided: liveness ('stall'), panic-freedom of every index expression for every input, resource exhaustion.")
